@@ -116,6 +116,7 @@ theorem failed_op_frame (v : Variant) (w : World) (op : Op) (h : (step v w op).2
     | none => rfl
     | some i => rw [hj] at h; exact upd_err _ _ h
   | dumpKept j => simp only [step] at h ⊢; (repeat' split) <;> rfl
+  | reload => simp only [step] at h ⊢; split <;> first | rfl | simp_all
 
 /-! ### conformers are live views of their row -/
 
@@ -258,7 +259,7 @@ theorem nested_iter_count (w : World) (l : List (Nat × Nat)) (h : (step .repair
   rw [length_flatMap_const _ _ w.ens.nC (by intro x; simp), List.length_range]
 
 def Op.isCtor : Op → Bool
-  | .ctorAtoms _ _ | .ctorMol _ _ | .ctorMols _ | .ctorCopy | .ctorCopyKw | .swap _ => true
+  | .ctorAtoms _ _ | .ctorMol _ _ | .ctorMols _ | .ctorCopy | .ctorCopyKw | .swap _ | .reload => true
   | _ => false
 
 def isNextOf (k : Nat) : Op → Bool
@@ -404,6 +405,34 @@ example : (run .repaired initWorld
      .iterNext 0, .loop, .iterNext 1, .iterNext 0, .iterNext 0]).2 =
     [.ok, .handle 0, .handle 1, .yielded (some 0), .yielded (some 0), .ok, .yielded (some 1), .idxs [0, 1, 2, 3],
      .yielded (some 1), .yielded (some 2), .yielded none] := by decide
+
+/-! ### mis-shaped arguments, and ensembles that come out of a library -/
+
+/-- what numpy's broadcasting accepts is accepted (one vector / matrix for all conformers, one component for x, y, z), everything
+else - a per-conformer count that is neither 1 nor `n_conformers` (also when `n_conformers = 1`, also when it happens to be
+`n_atoms`), 2 components, ragged input - is rejected, and by `failed_op_frame` a rejected operation changes nothing;
+by `rect_history` the shape invariant holds after EVERY operation, accepted or rejected -/
+example :
+    let w := (step .repaired initWorld (.ctorAtoms 2 1)).1
+    (step .repaired w (.translateEach [[some 1, some 0, some 0], [some 0, some 1, some 0]])).2 = .err ∧
+    (step .repaired w (.translateEach [[some 1, some 0, some 0], [some 0, some 1, some 0]])).1 = w ∧
+    (step .repaired w (.translateEach [[some 1, some 0, some 0]])).2 = .ok ∧
+    (step .repaired w (.translate [some 1, some 2])).2 = .err ∧
+    (step .repaired w (.translate [some 1])).2 = .ok ∧
+    (step .repaired w (.rotate [[some 1], [some 0], [some 0]])).2 = .ok ∧
+    (step .repaired w (.rotate [[some 1, some 0], [some 0, some 1], [some 0, some 0]])).2 = .err ∧
+    (step .repaired w (.rotateEach [[[some 1], [some 0], [some 0]], [[some 1], [some 0], [some 0]]])).2 = .err ∧
+    (step .repaired w (.setWeights [some 2, some 3])).2 = .err := by decide
+
+/-- a deserialised ensemble behaves like a constructed one: after `lib[k] = ens; ens = lib[k]` the world is the one in which the
+same arrays were bound afresh, so every later history (writes through conformers, in-place transformations, appends …) runs
+exactly as on a constructed ensemble; the other live ensembles are untouched -/
+theorem reload_like_constructed (w : World) (hr : Rect w.ens) (ops : List Op) :
+    (step .repaired w .reload) = (rebindIn w w.ens, .ok) ∧
+    run .repaired (step .repaired w .reload).1 ops = run .repaired (rebindIn w w.ens) ops := by
+  have h : (step .repaired w .reload) = (rebindIn w w.ens, .ok) := by
+    simp only [step, reloaded, (rect_iff _).mpr hr, if_true]
+  exact ⟨h, by rw [h]⟩
 
 /-! ### several live ensembles in one history: nothing else changes -/
 
